@@ -109,7 +109,7 @@ def PathT.trace (s : PathTState) (q : Req) : List Trace :=
   let found := (s.statics.filter (fun e => e.1.1 == q.path)).map Prod.snd
   let staticT : List Trace :=
     if found.isEmpty then [] else [Trace.mk true true found.length (.storage found) []]
-  [treeT, Trace.mk (!staticT.isEmpty) true s.statics.length (.other "path_and_query_static") staticT]
+  [treeT, Trace.mk (!staticT.isEmpty) true (staticKeyCount s.statics) (.other "path_and_query_static") staticT]
 
 /-- `PathAndQueryMatcher::cache`: `self.regex_tree_rule.cache(limit, Some(level))`.  `treeCache`
 returns `none` on a `u64` underflow of the budget; it never does (`Rio.C12.cache_total`), the
